@@ -5,7 +5,6 @@ import (
 	"go/ast"
 	"go/types"
 	"net/url"
-	"sort"
 	"strings"
 )
 
@@ -109,8 +108,15 @@ func (x *c20SX) model(fn *types.Func, call *ast.CallExpr, recv *c20V, args []c20
 			// FormatFloat(x, 'f', 6, 64) prints like %f
 			if len(args) == 4 && args[0].k == c20kIn && args[0].h != nil && args[1].k == c20kInt && args[2].k == c20kInt && args[3].k == c20kInt {
 				h := *args[0].h
-				if !(args[1].n == 'f' && args[2].n == 6 && args[3].n == 64) {
-					h.verb = fmt.Sprintf("float<%c,%d,%d>", rune(args[1].n), args[2].n, args[3].n)
+				h.num = true
+				src := fmt.Sprintf("strconv.FormatFloat(v, '%c', %d, %d)", rune(args[1].n), args[2].n, args[3].n)
+				if cl := c20FormatFloatClass(args[1].n, args[2].n, args[3].n); cl != "" {
+					if h.fl != "" {
+						cl = h.fl + "," + cl
+					}
+					h.fl, h.flsrc = cl, src
+				} else {
+					h.verb = src
 				}
 				return c20StrV(c20Sym{{hole: &h}}), true
 			}
@@ -242,6 +248,7 @@ func (x *c20SX) numTok(v, base c20V) (c20Tok, bool) {
 	case (v.k == c20kIn || v.k == c20kInt) && v.h != nil:
 		h := *v.h
 		h.verb = verb
+		h.num = true
 		return c20Tok{hole: &h}, true
 	}
 	return c20Tok{}, false
@@ -286,10 +293,16 @@ func (x *c20SX) sprintf(call *ast.CallExpr, args []c20V) c20V {
 				return c20Unknown("argument #%d of `%s` (%s) is neither a string nor a number", k, x.srcOf(call), a.typ)
 			}
 			h := *a.h
+			h.num = true
 			isInt := bt.Info()&types.IsInteger != 0
-			switch {
+			switch cl := c20FloatClass(p.verb); {
 			case isInt && (p.verb == "%d" || p.verb == "%v"):
-			case !isInt && p.verb == "%f":
+			case !isInt && cl != "":
+				// a decimal float rendering: its precision is judged by arg-fidelity@, not by the URL shape
+				if h.fl != "" {
+					cl = h.fl + "," + cl
+				}
+				h.fl, h.flsrc = cl, p.verb
 			default:
 				h.verb = p.verb
 			}
@@ -357,44 +370,4 @@ func (x *c20SX) optKind(t types.Type) string {
 		return ""
 	}
 	return strings.ToLower(strings.TrimSuffix(n, "Option"))
-}
-
-// valuesEncode models url.Values{"k": {v}, ...}.Encode(): keys sorted, `key=QueryEscape(value)` joined with "&".
-func (x *c20SX) valuesEncode(m c20V) (c20V, bool) {
-	if m.k != c20kAgg || !m.b {
-		return c20V{}, false
-	}
-	type kv struct {
-		k string
-		v c20Sym
-	}
-	var kvs []kv
-	for i, k := range m.keys {
-		l := m.vs[i]
-		if k.k != c20kStr || len(k.sym.holes()) != 0 || l.k != c20kList || l.in || l.star != nil || len(l.elems) != 1 {
-			return c20V{}, false
-		}
-		val := c20MergeLits(l.elems[0])
-		switch {
-		case len(val.holes()) == 0:
-			val = c20Lit(url.QueryEscape(val.render(nil)))
-		case len(val) == 1 && val[0].hole != nil && val[0].hole.fn == "" && !val[0].hole.base:
-			h := *val[0].hole
-			h.fn = "escape"
-			val = c20Sym{{hole: &h}}
-		default:
-			return c20V{}, false
-		}
-		kvs = append(kvs, kv{k.sym.render(nil), val})
-	}
-	sort.Slice(kvs, func(i, j int) bool { return kvs[i].k < kvs[j].k })
-	var out c20Sym
-	for i, e := range kvs {
-		if i > 0 {
-			out = append(out, c20Tok{lit: "&"})
-		}
-		out = append(out, c20Tok{lit: url.QueryEscape(e.k) + "="})
-		out = append(out, e.v...)
-	}
-	return c20StrV(out), true
 }
